@@ -165,7 +165,15 @@ func MakeHash(args []Sexp, typename string, env *Zlisp) (*SexpHash, error) {
 		factory.ReflectName = typename
 		factory.DisplayAs = typename
 
-		GoStructRegistry.RegisterUserdef(factory, false, typename)
+		// "field" is the pseudo-record built by the (field ...) form of
+		// a struct declaration, not a user type: registering it in the
+		// process-global registry made ImportBaseTypes bind the global
+		// name `field` to that type in every interpreter created later,
+		// shadowing the (field ...) constructor, so that only the first
+		// interpreter of a process could declare structs.
+		if typename != "field" {
+			GoStructRegistry.RegisterUserdef(factory, false, typename)
+		}
 	}
 
 	return &hash, nil
